@@ -26,6 +26,10 @@ def gen_mech(rng, nsrc=None):
     # sources that compare equal but are represented differently (unreduced counts, zero-count faces)
     if nsrc >= 2 and "h" in srcs[0] and rng.random() < 0.35:
         srcs[1] = ec.twin_of(rng, srcs[0])
+    elif nsrc >= 2 and rng.random() < 0.25:
+        # the very same object passed in two positions (evalcommon builds identical descriptions once)
+        import copy
+        srcs[-1] = copy.deepcopy(srcs[0])
     keys = list(ec.all_keys(srcs))
     if len(keys) > 60:
         srcs = srcs[:1]
